@@ -37,13 +37,18 @@ def rule_wire(ctx, repo, eng, ci):
     for n in walk_no_nested(fr.node):
         if isinstance(n, ast.Assign) and isinstance(n.targets[0], ast.Attribute) and isinstance(n.value, ast.Name):
             sets[n.targets[0].attr] = n.value.id
+        elif isinstance(n, ast.Assign) and isinstance(n.targets[0], ast.Attribute) and isinstance(n.value, ast.Constant):
+            sets[n.targets[0].attr] = '<constant %r>' % (n.value.value,)
     fields = ('vData', 'nHashFuncs', 'nTweak', 'nFlags')
     for f in fields:
         got = sets.get(f)
         if got == f or (got is None and f in rfields):
             r.ok('reader-installs:%s' % f, fr.site, 'field %s installed from the value read' % f)
-        elif got in fields:
+        elif got in fields or (got or '').startswith('<constant'):
             r.violated('reader-installs:%s' % f, fr.site, 'the reader installs %s from the value read for %s' % (f, got))
+        elif not any((isinstance(n, ast.Attribute) and n.attr == f and isinstance(n.ctx, ast.Store)) or (isinstance(n, ast.Constant) and n.value == f)
+                     for n in ast.walk(fr.node)) and not any(isinstance(n, ast.Call) and norm(n.func) in ('cls', ci.name) and len(n.args) + len(n.keywords) >= 4 for n in ast.walk(fr.node)):
+            r.violated('reader-installs:%s' % f, fr.site, 'the reader never stores the field %s on the object it returns' % f)
         else:
             r.undecided('reader-installs:%s' % f, fr.site, 'no plain assignment of the value read to the field %s was found (got %s)' % (f, got))
 
